@@ -1,5 +1,5 @@
 import sys, os, time, importlib
-sys.path.insert(0,'/verif')
+sys.path.insert(0, os.path.dirname(os.path.abspath(__file__)))
 from pyvc import vx, check, loader
 modname, pat = sys.argv[1], sys.argv[2]
 m = importlib.import_module('contracts.'+modname)
